@@ -111,10 +111,12 @@ int ops_fileset(char **args, int na)
 	if (!strcmp(op, "fs.set")) {
 		/* rewrite the setfile in place (same inode) and give it a strictly larger mtime */
 		FILE *f = fopen(setfile, "w"); if (!f) return -1;
+		/* every third version of the setfile ends WITHOUT a final newline (a text file's last line need not have one) */
 		for (int i = 1; i < na; i++) {
-			if (args[i][0] == '/') fprintf(f, "%s%s\n", fsdir, args[i]);     /* "/name" = listed by absolute path */
-			else if (args[i][0] == '@') fprintf(f, "%s/%s\n", fsdir2, args[i] + 1);
-			else fprintf(f, "%s\n", args[i]);
+			const char *nl = (i == na - 1 && set_version % 3 == 1) ? "" : "\n";
+			if (args[i][0] == '/') fprintf(f, "%s%s%s", fsdir, args[i], nl);     /* "/name" = listed by absolute path */
+			else if (args[i][0] == '@') fprintf(f, "%s/%s%s", fsdir2, args[i] + 1, nl);
+			else fprintf(f, "%s%s", args[i], nl);
 		}
 		fclose(f);
 		set_version++;
